@@ -4,6 +4,7 @@ import (
 	"fmt"
 	"go/types"
 	"sort"
+	"strings"
 )
 
 // Comp is one SMT component of a Go value shape.
@@ -13,6 +14,14 @@ type Comp struct {
 }
 
 var bv64 = BV(64)
+
+// slice/string offsets, lengths and capacities are stored as 48-bit components and zero-extended to 64 bits:
+// the type invariant 0 <= off,len,cap < 2^48 is built into the representation (allocation of >= 2^47 elements
+// is assumed to fail), which keeps index arithmetic free of wrap-around for the solvers.
+var bv48 = BV(48)
+
+func z48(t *Term) *Term { return ZeroExt(16, t) }
+func x48(t *Term) *Term { return Extract(47, 0, t) }
 
 // shapeComps flattens a Go type into scalar SMT components.
 func shapeComps(t types.Type) []Comp {
@@ -25,7 +34,7 @@ func shapeComps(t types.Type) []Comp {
 	switch u := t.Underlying().(type) {
 	case *types.Basic:
 		if u.Info()&types.IsString != 0 {
-			return []Comp{{".arr", IntS}, {".off", bv64}, {".len", bv64}}
+			return []Comp{{".arr", IntS}, {".off", bv48}, {".len", bv48}}
 		}
 		if s := sortOfBasic(u); s != nil {
 			return []Comp{{"", s}}
@@ -34,7 +43,7 @@ func shapeComps(t types.Type) []Comp {
 	case *types.Pointer, *types.Map, *types.Chan, *types.Signature:
 		return []Comp{{"", IntS}}
 	case *types.Slice:
-		return []Comp{{".arr", IntS}, {".off", bv64}, {".len", bv64}, {".cap", bv64}}
+		return []Comp{{".arr", IntS}, {".off", bv48}, {".len", bv48}, {".cap", bv48}}
 	case *types.Interface:
 		return []Comp{{".tag", IntS}, {".val", IntS}}
 	case *types.Struct:
@@ -67,7 +76,7 @@ func fromCompsP(t types.Type, prefix string, get func(suffix string, s *Sort) *T
 	switch u := t.Underlying().(type) {
 	case *types.Basic:
 		if u.Info()&types.IsString != 0 {
-			return SliceV{Arr: get(prefix+".arr", IntS), Off: get(prefix+".off", bv64), Len: get(prefix+".len", bv64), Ty: t, Str: true}
+			return SliceV{Arr: get(prefix+".arr", IntS), Off: z48(get(prefix+".off", bv48)), Len: z48(get(prefix+".len", bv48)), Ty: t, Str: true}
 		}
 		if s := sortOfBasic(u); s != nil {
 			return Scalar{T: get(prefix, s), Ty: t}
@@ -76,7 +85,7 @@ func fromCompsP(t types.Type, prefix string, get func(suffix string, s *Sort) *T
 	case *types.Pointer, *types.Map, *types.Chan, *types.Signature:
 		return Scalar{T: get(prefix, IntS), Ty: t}
 	case *types.Slice:
-		return SliceV{Arr: get(prefix+".arr", IntS), Off: get(prefix+".off", bv64), Len: get(prefix+".len", bv64), Cap: get(prefix+".cap", bv64), Ty: t}
+		return SliceV{Arr: get(prefix+".arr", IntS), Off: z48(get(prefix+".off", bv48)), Len: z48(get(prefix+".len", bv48)), Cap: z48(get(prefix+".cap", bv48)), Ty: t}
 	case *types.Interface:
 		return IfaceV{Tag: get(prefix+".tag", IntS), Val: get(prefix+".val", IntS), Ty: t}
 	case *types.Struct:
@@ -115,8 +124,8 @@ func toCompsP(t types.Type, prefix string, v Value, put func(suffix string, tm *
 				return false
 			}
 			put(prefix+".arr", sl.Arr)
-			put(prefix+".off", sl.Off)
-			put(prefix+".len", sl.Len)
+			put(prefix+".off", x48(sl.Off))
+			put(prefix+".len", x48(sl.Len))
 			return true
 		}
 		sc, ok := v.(Scalar)
@@ -141,9 +150,9 @@ func toCompsP(t types.Type, prefix string, v Value, put func(suffix string, tm *
 			return false
 		}
 		put(prefix+".arr", sl.Arr)
-		put(prefix+".off", sl.Off)
-		put(prefix+".len", sl.Len)
-		put(prefix+".cap", sl.Cap)
+		put(prefix+".off", x48(sl.Off))
+		put(prefix+".len", x48(sl.Len))
+		put(prefix+".cap", x48(sl.Cap))
 		return true
 	case *types.Interface:
 		iv, ok := v.(IfaceV)
@@ -179,6 +188,13 @@ type State struct {
 	Ghost   map[string]*Term
 	Locks   map[string]bool // lockset: names of held locks
 	Defers  []deferred
+	Shapes  map[string]*shape
+	Writes    []*writeRec
+	CutEpoch  int
+	FreshObjs map[*Term]bool
+	G         *Term // guard of the node being executed
+	noRecord  int
+	PrevCut *State // state right after the previous section cut (nil: function entry)
 	Havoc   map[string]int // heap component prefixes havocked before materialisation -> epoch
 }
 
@@ -189,7 +205,7 @@ type deferred struct {
 
 func NewState() *State {
 	return &State{Heap: map[string]*Term{}, Cells: map[string]Value{}, CellTy: map[string]types.Type{}, Vars: map[string]Value{},
-		Written: map[string][]*Term{}, Ghost: map[string]*Term{}, Locks: map[string]bool{}, Havoc: map[string]int{}}
+		Written: map[string][]*Term{}, Ghost: map[string]*Term{}, Locks: map[string]bool{}, Havoc: map[string]int{}, Shapes: map[string]*shape{}, FreshObjs: map[*Term]bool{}}
 }
 
 func (s *State) Clone() *State {
@@ -218,8 +234,18 @@ func (s *State) Clone() *State {
 	for k, v := range s.Havoc {
 		n.Havoc[k] = v
 	}
+	for k, v := range s.Shapes {
+		n.Shapes[k] = v
+	}
 	n.Defers = append([]deferred{}, s.Defers...)
 	n.Next = s.Next
+	n.PrevCut = s.PrevCut
+	n.Writes = append([]*writeRec{}, s.Writes...)
+	n.CutEpoch = s.CutEpoch
+	n.G = s.G
+	for k := range s.FreshObjs {
+		n.FreshObjs[k] = true
+	}
 	return n
 }
 
@@ -321,6 +347,10 @@ func (x *Exec) mergeValues(c *Term, a, b Value, hint string) Value {
 func (x *Exec) mergeTerm(c, a, b *Term, hint string) *Term {
 	if a == b {
 		return a
+	}
+	// keep zero-extension structure (48-bit slice components) visible
+	if strings.HasPrefix(a.Op, "(_ zero_extend") && a.Op == b.Op && a.Args[0].S.Eq(b.Args[0].S) {
+		return mk(a.Op, a.S, x.VC.Def(hint, Ite(c, a.Args[0], b.Args[0])))
 	}
 	return x.VC.Def(hint, Ite(c, a, b))
 }
